@@ -272,7 +272,6 @@ CORPUS = [
 SIZEOF_CORPUS = [
     (("Z", "int", 4), [[]]),
     (B("gt", B("sub", ("Z", "int", 4), lit(5)), lit(0)), [[]]),      # 1 in C (unsigned arithmetic), 0 with a signed sizeof
-    (B("div", U("neg", lit(1)), ("Z", "char", 1)), [[]]),
     (B("lt", V("int", 0), ("Z", "long", 8)), [[-1], [3]]),
 ]
 
@@ -381,9 +380,11 @@ def check(ctx):
         src = "\n".join(L.func_text(f"f{k + j}", "llong", c["params"], c["tree"]) for j, c in enumerate(chunk)) + "\n"
         funcs = [(f"f{k + j}", c["argvs"]) for j, c in enumerate(chunk)]
         # Spec.IR itself executes: the corpus unit, and a sample of the others
-        sir = k == 0 or rng.random() < (0.4 if thorough else 0.08)
+        sir = k == 0 or rng.random() < (0.4 if thorough else 0.05)
         jobs.append({"src": src, "funcs": funcs, "spec_ir": sir, "native": thorough and rng.random() < 0.35})
-    results = L.run_units(jobs)
+    ltypes, ljobs, lreqs, lsub = layout_prepare(ctx)
+    all_results = L.run_units(jobs + ljobs)
+    results, lresults = all_results[:len(jobs)], all_results[len(jobs):]
 
     # a unit that does not compile is split so that the offending function is alone
     def flatten(jobs, results):
@@ -421,7 +422,8 @@ def check(ctx):
         for args in c["argvs"]:
             env = "[" + ",".join(str(a) for a in args) + "]"
             reqs += [f"seval {env} {p}", f"rieval {env} {p}"]
-    replies = ctx.driver("C01", reqs)
+    all_replies = ctx.driver("C01", reqs + lreqs)
+    replies, lreplies = all_replies[:len(reqs)], all_replies[len(reqs):]
     phases["driver"] = round(time.time() - t0, 1)
     t0 = time.time()
 
@@ -455,7 +457,7 @@ def check(ctx):
         # --- the property: typing.  The type ppci gives the expression is read off the real AST
         bad_args = []
         real_ty = ast_type(obs["ast"])
-        type_bad = real_ty != L.MODEL_OF_SPEC.get(stype, stype)
+        type_bad = stype != "none" and real_ty != L.MODEL_OF_SPEC.get(stype, stype)
         if not type_bad and c["kind"] == "single" and "icast" in obs["ast"]:
             ctx.nontrivial(label)
         # --- the property: values
@@ -484,6 +486,7 @@ def check(ctx):
                     if ctx.counts["native_differs"] <= 5:
                         ctx.note(f"native x86-64 run differs (back-end, C04/C05, not reported here): {text} args={args}: {nat[j]} vs {want_v}")
         if type_bad or bad_args:
+            c["ast"] = obs["ast"]
             failing.append((i, bad_args, type_bad))
         if c["kind"] in ("corpus", "random") and len(ctx.samples) < 6 and i % 37 == 0:
             ctx.sample({"c": text, "params": c["params"], "typed_ast": obs["ast"][:300], "spec_type": stype,
@@ -524,7 +527,7 @@ def check(ctx):
     t0 = time.time()
 
     check_tables(ctx)
-    check_layout(ctx)
+    check_layout(ctx, ltypes, lresults, lreplies, lsub)
     phases["layout"] = round(time.time() - t0, 1)
     t0 = time.time()
     if thorough:
@@ -562,6 +565,8 @@ def wrap_naive(c, args):
             return ev(e[2]) if ev(e[1]) else ev(e[3])
         a, b = ev(e[2]), ev(e[3])
         op = e[1]
+        if a is None or b is None or (op in ("shl", "shr") and not 0 <= b < 128) or (op in ("div", "mod") and b == 0):
+            raise ArithmeticError
         try:
             return {"add": lambda: a + b, "sub": lambda: a - b, "mul": lambda: a * b, "div": lambda: a // b,
                     "mod": lambda: a % b, "shl": lambda: a << b, "shr": lambda: a >> b, "band": lambda: a & b,
@@ -677,26 +682,56 @@ def smallest_failing(ctx, case, argvs):
     return None, None
 
 
+def leaf_kind(x):
+    return type_class(x[1]) if x[0] == "V" else {"L": "literal", "C": "charconst", "Z": "sizeof"}.get(x[0], "expr")
+
+
 def child_types(ctx, tree):
+    """failure-signature part: the operand classes of the root operator (variables: their type class; constants by
+    kind; nested operands: the class of their C type, asked from the specification)"""
     kids = [x for x in tree[1:] if isinstance(x, tuple)]
     if not kids:
         return ["leaf"]
+    if all(k[0] in "VLCZ" for k in kids):
+        return [leaf_kind(k) for k in kids]
     rep = ctx.driver("C01", [f"stype {L.proto(k)}" for k in kids])
-    return [type_class(r[3:]) for r in rep]
+    return [leaf_kind(k) if k[0] in "VLCZ" else type_class(r[3:]) for k, r in zip(kids, rep)]
+
+
+def is_minimal(tree):
+    return all(x[0] in "VLCZ" for x in tree[1:] if isinstance(x, tuple))
 
 
 def report_failures(ctx, cases, failing, limit=8):
     """failing: [(case index, [argument vectors with a wrong value], type is wrong)]"""
+    n_shrunk = [0]
     for n, (i, bad_args, type_bad) in enumerate(failing):
         c = cases[i]
         text = L.render_c(c["tree"])
         info = {"label": c["label"], "c": text, "params": c["params"], "args": bad_args[:2]}
-        if n >= limit and c["kind"] != "sizeof":
+        if c["kind"] == "sizeof":
+            # these programs exist to expose exactly one thing: the type ppci gives `sizeof` (open finding)
+            ctx.fail("ctype:sizeof:signed", f"`{text}` with {decl_text(c)}: " +
+                     ("ppci types it differently from C" if type_bad else f"wrong value for args {bad_args[:1]}") +
+                     " because `sizeof` has a signed type", info)
+            continue
+        if is_minimal(c["tree"]):
+            # a single operator on variables / constants: nothing to shrink, the signature names operator and operand classes
+            kinds = ":".join(child_types(ctx, c["tree"]))
+            if type_bad:
+                ctx.fail(f"ctype:{op_class(c['tree'])}:{kinds}", f"`{text}` with {decl_text(c)} has a different type in C "
+                         f"than the one ppci gives it (typed AST: {c.get('ast', '')[:200]})", info)
+            else:
+                ctx.fail(f"cvalue:{op_class(c['tree'])}:{kinds}", f"`{text}` with {decl_text(c)} args={bad_args[:1]}: the emitted IR "
+                         "does not compute C's value", info)
+            continue
+        if n_shrunk[0] >= limit:
             ctx.fail(f"c{'type' if type_bad else 'value'}:{op_class(c['tree'])}:unshrunk",
                      f"`{text}` with {decl_text(c)}: {'wrong type' if type_bad else 'wrong value'} (args {bad_args[:1]}); "
                      f"more than {limit} failing programs, not shrunk", info)
             continue
         argvs = bad_args[:4] or c["argvs"][:2] or [[]]
+        n_shrunk[0] += 1
         r, what = smallest_failing(ctx, c, argvs)
         if r is None:
             ctx.fail(f"cvalue:{op_class(c['tree'])}:whole", f"`{text}` with {decl_text(c)} args={bad_args[:1]}: the emitted IR does not "
@@ -776,25 +811,39 @@ LAYOUT_CORPUS = [
 ]
 
 
-def check_layout(ctx):
+def layout_prepare(ctx):
+    """-> (types, jobs for the front-end pool, driver requests)"""
     rng = ctx.rng
     types = list(LAYOUT_CORPUS)
-    for _ in range(1500 if ctx.thorough else 220):
+    for _ in range(1000 if ctx.thorough else 130):
         types.append(L.gen_lty(rng, rng.choice([1, 2, 2, 3])))
-    per = 60
+    per = LAYOUT_PER
     jobs = []
     for k in range(0, len(types), per):
-        src, _ = L.layout_source(types[k:k + per])
-        jobs.append({"src": src, "n": len(types[k:k + per])})
-    import multiprocessing
-    workers = max(1, min(int(os.environ.get("C01_WORKERS", "4")), len(jobs)))
-    with multiprocessing.get_context("fork").Pool(workers) as pool:
-        results = pool.map(L.run_layout_unit, jobs, chunksize=1)
+        src, _, inits = L.layout_source(types[k:k + per], with_inits=True)
+        jobs.append({"kind": "layout", "src": src, "n": len(types[k:k + per]), "inits": inits})
     reqs = []
     for t in types:
         p = L.lty_proto(t)
         reqs += [f"mlayout {p}", f"slayout {p}"]
-    rep = ctx.driver("C01", reqs)
+    subs = {}
+    for t in types:
+        if L.int_only(t):
+            L.subtypes(t, subs)
+    sub_keys = sorted(subs)
+    reqs += [f"slayout {k}" for k in sub_keys]
+    return types, jobs, reqs, sub_keys
+
+
+LAYOUT_PER = 50
+
+
+def check_layout(ctx, types, results, rep, sub_keys):
+    per = LAYOUT_PER
+    info = {}
+    for k, r in zip(sub_keys, rep[2 * len(types):]):
+        a, b2, c2 = r[3:].split(" ", 2)
+        info[k] = (int(a), int(b2), [int(x) for x in c2.strip("[]").split(",") if x])
     gcc_rows = None
     if ctx.thorough:
         gcc_rows, err = L.gcc_layout(types)
@@ -834,6 +883,13 @@ def check_layout(ctx):
                      f"System V gives {s_size}/{s_align}", case)
         if row["sizeof_const"] is not None and str(row["sizeof_const"]) != s_size:
             ctx.fail(f"clayout:sizeof-const:{kind}", f"sizeof(g) is lowered to the constant {row['sizeof_const']}, System V gives {s_size}", case)
+        # global memory contents: the image of an initialised object (scalars at the System V offsets, zero padding)
+        if row.get("image") is not None and L.int_only(t):
+            ctx.count("eval_init_image")
+            want = L.expected_image(t, info).hex()
+            if row["image"] != want:
+                ctx.fail(f"clayout:init-image:{kind}", f"initialised global has the bytes {row['image']}, the System V layout gives {want}",
+                         case, impl=row["image"], spec=want)
         if gcc_rows is not None:
             g = gcc_rows[i]
             gs = f"{g[0]} {g[1]} [{','.join(str(o) for o in g[2])}]"
@@ -912,10 +968,10 @@ def program_differential(ctx):
     global memory image): random UB-free functions compiled by the real front-end and run by ir_to_python are compared
     with the same functions compiled by gcc (-fsanitize=undefined) on random arguments.  Failing-input search only."""
     rng = ctx.rng
-    nprog = 140 if ctx.thorough else 10
+    nprog = 140 if ctx.thorough else 6
     per = 10
     for k in range(0, nprog, per):
-        src, funcs = L.gen_programs(rng, per)
+        src, funcs = L.gen_programs(rng, min(per, nprog - k))
         argvs = {name: L.gen_args(rng, [L.PARAM_TAG[t] for t in pts], 8 if ctx.thorough else 4) for name, pts in funcs}
         ours = L.run_programs_ppci(src, funcs, argvs)
         theirs, err = L.run_programs_gcc(src, funcs, argvs)
